@@ -207,28 +207,29 @@ def LookupFuelOK (R : Registry) : Prop :=
 
 /-! ### the plugged layers -/
 
-/-- What the theorem needs of the plugged layers: no errors of the identity and typedef stages on
+/-- What the theorem needs of the plugged layers (`plug` for the unsplit, `plug'` for the split
+registry: the pipeline's plug is built from the registry, `Pipeline.plugFull`): no errors of the identity and typedef stages on
 the split set when there are none on the unsplit set, and the same answer of type resolution for a
 `type` statement whether its ancestors end in `m`'s statement (root `m`) or in a part's (root the
 part); for statements of other modules the two registries answer alike. -/
-structure PlugSplitOK (s : Split) (R R' : Registry) (plug : Plug) : Prop where
-  identity : plug.identityErrs R = [] → plug.identityErrs R' = []
-  typedefs : plug.typedefErrs R = [] → plug.typedefErrs R' = []
+structure PlugSplitOK (s : Split) (R R' : Registry) (plug plug' : Plug) : Prop where
+  identity : plug.identityErrs R = [] → plug'.identityErrs R' = []
+  typedefs : plug.typedefErrs R = [] → plug'.typedefErrs R' = []
   types_part : ∀ P ∈ s.parts, ∀ (inner : List Stmt) (t : Stmt),
-    plug.tres.resolve R' P (inner ++ [P.stmt]) t = plug.tres.resolve R s.m (inner ++ [s.m.stmt]) t
+    plug'.tres.resolve R' P (inner ++ [P.stmt]) t = plug.tres.resolve R s.m (inner ++ [s.m.stmt]) t
   types_other : ∀ x ∈ R.mods, x.seq ≠ s.m.seq → ∀ (scope : List Stmt) (t : Stmt),
-    plug.tres.resolve R' x scope t = plug.tres.resolve R x scope t
+    plug'.tres.resolve R' x scope t = plug.tres.resolve R x scope t
 
 /-! ### the relation between the two registries -/
 
 /-- **`R'` is `R` with the module `s.m` split** into the owner `s.owner` and the submodules
 `s.subs`, such that every part sees every top-level grouping of `m` under goyang's rules, the plugged
 layers answer alike, and both registries satisfy the well-formedness and size conditions above. -/
-structure IsSplitOf (s : Split) (R R' : Registry) (plug : Plug) : Prop where
+structure IsSplitOf (s : Split) (R R' : Registry) (plug plug' : Plug) : Prop where
   text : TextOK s
   regs : RegsOK s R R'
   visible : Visible s R' (linkAll R').1
-  plugOK : PlugSplitOK s R R' plug
+  plugOK : PlugSplitOK s R R' plug plug'
   pos : PosWF R
   pos' : PosWF R'
   refs : RefsWF R
